@@ -22,12 +22,16 @@ package ckd
 //@   ensures len(src) <= srcPaddedSize ==> len(result) == len(dst) + srcPaddedSize
 //@   ensures len(src) > srcPaddedSize ==> len(result) == len(dst) + len(src)
 //@   ensures cap(dst) >= len(dst) + srcPaddedSize && len(src) <= srcPaddedSize ==> arr(result) == arr(dst)
+//@   ensures [C18.appends-the-left-padded-coordinate] len(src) < srcPaddedSize ==> ((forall k in 0..srcPaddedSize - len(src) :: result[len(dst) + k] == 0) && (forall k in 0..len(src) :: result[len(dst) + srcPaddedSize - len(src) + k] == old(src[k])))
+//@   ensures [C18.keeps-what-was-there] forall k in 0..len(dst) :: result[k] == old(dst[k])
 //@   skip frame
 //@   note writes only into the spare capacity of dst (or a fresh array)
 
 //@ func serializeCompressed
 //@   props C06 C18
 //@   requires publicKeyX != nil && publicKeyY != nil
+//@   ensures [C18.format-byte-is-two-plus-the-parity-of-y] val(publicKeyY) >= 0 ==> result[0] == 2 + val(publicKeyY) % 2
+//@   ensures [C18.a-short-x-coordinate-is-left-padded-with-zeros] (0 <= val(publicKeyX) && val(publicKeyX) < pow2(256)) ==> (forall k in 0..32 - blen(be(val(publicKeyX))) :: result[1 + k] == 0)
 //@   ensures [C18.compressed-key-is-33-bytes] len(result) >= 33 && ((0 <= val(publicKeyX) && val(publicKeyX) < pow2(256)) ==> len(result) == 33)
 
 //@ func calcHash
